@@ -26,6 +26,8 @@ pub struct Msg {
     pub apid: String,
     pub ctid: String,
     pub text: String,
+    /// a control request (sent by the logger: its time stamp is from the clock of the logger)
+    pub ctrl: bool,
 }
 
 fn pad4(s: &str) -> [u8; 4] {
@@ -41,6 +43,18 @@ pub fn msg_bytes(m: &Msg) -> Vec<u8> {
     v.extend_from_slice(&((m.recv / 1_000_000) as u32).to_le_bytes());
     v.extend_from_slice(&((m.recv % 1_000_000) as u32).to_le_bytes());
     v.extend_from_slice(&[b'E', b'C', b'U', b'0' + m.ecu]);
+    if m.ctrl {
+        // control request, non-verbose: service id get_software_version
+        let payload = 0x13u32.to_le_bytes();
+        let len = 4 + 4 + 10 + payload.len();
+        v.extend_from_slice(&[0x31, 0, (len >> 8) as u8, len as u8]);
+        v.extend_from_slice(&m.ts.to_be_bytes());
+        v.extend_from_slice(&[(3 << 1) | (1 << 4), 1]);
+        v.extend_from_slice(&pad4(&m.apid));
+        v.extend_from_slice(&pad4(&m.ctid));
+        v.extend_from_slice(&payload);
+        return v;
+    }
     let mut payload = vec![];
     payload.extend_from_slice(&(DLT_TYPE_INFO_STRG | DLT_SCOD_UTF8).to_le_bytes());
     payload.extend_from_slice(&((m.text.len() + 1) as u16).to_le_bytes());
@@ -69,7 +83,7 @@ pub fn parse_msgs(s: &str) -> Vec<Msg> {
             continue;
         }
         let f: Vec<&str> = x.split(',').collect();
-        out.push(Msg { ecu: f[0].parse().unwrap(), recv: f[1].parse().unwrap(), ts: f[2].parse().unwrap(), apid: f[3].to_string(), ctid: f[4].to_string(), text: String::from_utf8(unhex(f[5])).unwrap() });
+        out.push(Msg { ecu: f[0].parse().unwrap(), recv: f[1].parse().unwrap(), ts: f[2].parse().unwrap(), apid: f[3].to_string(), ctid: f[4].to_string(), text: String::from_utf8(unhex(f[5])).unwrap(), ctrl: f.get(7).map_or(false, |c| *c == "1") });
     }
     out
 }
@@ -713,11 +727,25 @@ fn gen(rng: &mut Rng, tier: u32) -> String {
             apid: rng.pick(&["APP1", "APP2", "SYS"][..]).to_string(),
             ctid: rng.pick(&["CTX1", "CTX2"][..]).to_string(),
             text: rng.pick(&["boot ok", "error x", "status ok", "x", "err 42", "all fine"][..]).to_string(),
+            ctrl: false,
         });
     }
+    // in one case of three some messages are control requests: sent by the logger, with a time stamp of the logger's clock -
+    // the lifecycle detection ignores that time stamp, the time sort and the time lookup use the reception time for them
+    if rng.chance(3) {
+        for m in msgs.iter_mut() {
+            if rng.chance(4) {
+                m.ctrl = true;
+                m.ts = *rng.pick(&[0u32, 20_000, 600_000_000]);
+                m.text = "get_software_version".to_string();
+            }
+        }
+    }
     let starts = lc_starts(&msgs);
-    let monotone = msgs.iter().zip(starts.iter()).map(|(m, s)| s + m.ts as u64 * 100).collect::<Vec<_>>().windows(2).all(|w| w[0] <= w[1]);
-    let times: Vec<u64> = msgs.iter().zip(starts.iter()).map(|(m, s)| s + m.ts as u64 * 100).collect();
+    // the time of a message for sorting and time lookups: reception time for control requests, otherwise lifecycle start +
+    // time stamp, but not later than the reception time
+    let times: Vec<u64> = msgs.iter().zip(starts.iter()).map(|(m, s)| if m.ctrl { m.recv } else { (s + m.ts as u64 * 100).min(m.recv) }).collect();
+    let monotone = times.windows(2).all(|w| w[0] <= w[1]);
     let strict = times.windows(2).all(|w| w[0] < w[1]);
     let wild = rng.chance(6);
     let wild = wild && !directed;
@@ -728,7 +756,7 @@ fn gen(rng: &mut Rng, tier: u32) -> String {
     } else {
         "open"
     };
-    let ms: Vec<String> = msgs.iter().zip(starts.iter()).map(|(m, s)| format!("{},{},{},{},{},{},{}", m.ecu, m.recv, m.ts, m.apid, m.ctid, hex(m.text.as_bytes()), s)).collect();
+    let ms: Vec<String> = msgs.iter().zip(starts.iter()).map(|(m, s)| format!("{},{},{},{},{},{},{},{}", m.ecu, m.recv, m.ts, m.apid, m.ctid, hex(m.text.as_bytes()), s, m.ctrl as u8)).collect();
     // command history
     let mut cmds: Vec<String> = vec![];
     let mut announced = 0u64;
@@ -795,7 +823,7 @@ fn gen(rng: &mut Rng, tier: u32) -> String {
             73..=78 => {
                 if monotone && n > 0 {
                     let i = rng.below(n as u64) as usize;
-                    let t = (starts[i] + msgs[i].ts as u64 * 100) / 1000 + rng.below(2);
+                    let t = times[i] / 1000 + rng.below(2);
                     // sometimes a time far beyond every message (also beyond what fits into microseconds)
                     let t = if rng.chance(10) { [u64::MAX / 1000 + 1, u64::MAX / 1000, u64::MAX][rng.below(3) as usize] } else { t };
                     format!("bst {} {}", k, t)
